@@ -40,6 +40,14 @@ for mid in sorted(os.listdir(sd)) if os.path.isdir(sd) else []:
                                           " ".join(m.get("needs_to_manifest", "").split())[:160].replace("|", "\\|"),
                                           ", ".join(c["check"] for c in cb) if cb else ("**not caught**" if m.get("checks_run") else "not run yet")))
 out.append("")
+out.append("### 10.8 Checks as registered (from MANIFEST.json)\n")
+man = json.load(open(os.path.join(V, "MANIFEST.json")))
+out.append("| property | level | deciding method | limits |")
+out.append("|---|---|---|---|")
+for c in man.get("checks", []):
+    out.append("| %s | %s | %s | %s |" % (c["property_id"], c["level_claimed"]["category"], " ".join(c.get("technique", "").split()).replace("|", "\\|"),
+                                         " ".join(c.get("level_note", "").split())[:320].replace("|", "\\|")))
+out.append("")
 txt = "\n".join(out)
 p = os.path.join(V, "DESIGN.md")
 s = open(p).read()
